@@ -150,6 +150,12 @@ fn coercions_part(ctx: &Ctx) {
         for (nb, vb) in base {
             tys.push((format!("if b then {na} else {nb}"), Box::new(move |b, _| if b { va } else { vb })));
             tys.push((format!("if x < 1 then {na} else {nb}"), Box::new(move |_, x| if x < 1 { va } else { vb })));
+            if na != nb {
+                tys.push((format!("if x >= 1 then {na} else {nb}"), Box::new(move |_, x| if x >= 1 { va } else { vb })));
+                tys.push((format!("if x <= 0 then {na} else {nb}"), Box::new(move |_, x| if x <= 0 { va } else { vb })));
+                tys.push((format!("if x == 1 then {na} else {nb}"), Box::new(move |_, x| if x == 1 { va } else { vb })));
+                tys.push((format!("if x > 0 then {na} else {nb}"), Box::new(move |_, x| if x > 0 { va } else { vb })));
+            }
         }
     }
     tys.push(("t b".to_owned(), Box::new(|b, _| if b { B::Int } else { B::Bool })));
